@@ -487,7 +487,9 @@ func (r *run) loop() {
 				}
 			}
 		}
-		hasClock := r.timers.Len() > 0
+		// a timer beyond the horizon never fires within this execution (e.g. the
+		// "no deadline" timers armed with math.MaxInt64)
+		hasClock := r.timers.Len() > 0 && r.timers.peek().when <= r.horizon
 		n := len(en)
 		if hasClock {
 			n++
